@@ -59,6 +59,16 @@ def residue_contract(rows):
     exp_applied = [float(sum(vals[j] for j in range(n) if seg_of[j] == k)) for k in range(len(exp_starts))]
     if applied != exp_applied:
         return f"apply_residue_wise {applied} != {exp_applied}"
+    for data, fn, name in ((vals > 2, np.sum, "bool data, np.sum"), (np.arange(n) + 1, np.mean, "int data, np.mean"),
+                           (vals, np.max, "float data, np.max"), ((np.arange(n) % 2).astype(bool), np.any, "bool data, np.any")):
+        got = np.asarray(struc.apply_residue_wise(a, data, fn)).tolist()
+        expv = [fn(np.asarray(data)[[j for j in range(n) if seg_of[j] == k]]).item() for k in range(len(exp_starts))]
+        if got != expv or any(type(x) is not type(y) for x, y in zip(got, expv)):
+            return f"apply_residue_wise({name}) = {got}, per-segment recomputation gives {expv}"
+    cgot = np.asarray(struc.apply_residue_wise(a, a.coord, np.mean, axis=0)).tolist()
+    cexp = [np.mean(a.coord[[j for j in range(n) if seg_of[j] == k]], axis=0).tolist() for k in range(len(exp_starts))]
+    if not np.allclose(cgot, cexp):
+        return "apply_residue_wise(coord, np.mean, axis=0) differs from per-segment recomputation"
     spread = struc.spread_residue_wise(a, np.arange(len(exp_starts))).tolist()
     if spread != seg_of:
         return f"spread_residue_wise {spread} != {seg_of}"
@@ -84,6 +94,10 @@ def chain_contract(rows):
     seg_of = [max(k for k, s in enumerate(exp) if s <= i) for i in range(n)]
     if struc.get_chain_positions(a, np.arange(n)).tolist() != seg_of:
         return "get_chain_positions"
+    cmean = np.asarray(struc.apply_chain_wise(a, a.res_id, np.mean)).tolist()
+    cexpm = [float(np.mean([rows[j][1] for j in range(n) if seg_of[j] == k])) for k in range(len(exp))]
+    if cmean != cexpm:
+        return f"apply_chain_wise(res_id, np.mean) = {cmean}, per-chain recomputation gives {cexpm}"
     parts = list(struc.chain_iter(a))
     if [p.array_length() for p in parts] != [seg_of.count(k) for k in range(len(exp))]:
         return "chain_iter"
